@@ -49,6 +49,20 @@ class Gen2(M.Gen):
             return E(Bin("forEach", Code(self.mark(Arr(Var("_x"), Var("_forEachIndex"))), *inner), self.arr(0)))
         if k == 1:
             v = r.choice(["_i", "_k"])
+            if r.random() < 0.2:
+                # bounds far from zero (every value still an exact float): the end test compares, it does not estimate; the mark shows
+                # the distance to the end value so that every round prints a different number
+                base = r.choice([1000000, 2000000, 3000000, 8000000, -1000000, -4000000])
+                a, b_ = r.randint(0, 2), r.randint(0, 4)
+                st = r.choice([None, 2, -1, -2])
+                lo, hi = base + a, base + b_
+                if st is not None and st < 0:
+                    lo, hi = hi, lo
+                big = lambda x: Bin("+", Bin("*", N(1000), N(base // 1000)), N(x - base))    # no seven-digit literal in the listing
+                f = Bin("to", Bin("from", Un("for", S(v)), big(lo)), big(hi))
+                if st is not None:
+                    f = Bin("step", f, N(st))
+                return E(Bin("do", f, Code(self.mark(Bin("-", Var(v), big(base))), *inner)))
             return E(Bin("do", Bin("to", Bin("from", Un("for", S(v)), N(r.randint(0, 2))), N(r.randint(0, 4))), Code(self.mark(Var(v)), *inner)))
         if k == 2:
             v = r.choice(self.locals)
